@@ -55,6 +55,16 @@ pub struct CheckDef {
     pub expected_probes: &'static [&'static str],
 }
 
+impl CheckDef {
+    /// How often an explicit scenario is re-executed before "does not reproduce" is
+    /// concluded. One for every check except C17, whose subject is nondeterminism of the
+    /// program itself: a hash map seeded by std's RandomState cannot be seeded from outside,
+    /// so a violation caused by one shows up only in some executions.
+    pub fn replay_attempts(&self) -> u32 {
+        if self.info.id == "C17" { 12 } else { 1 }
+    }
+}
+
 pub fn all() -> Vec<CheckDef> {
     vec![c01::def(), c02::def(), c03::def(), c04::def(), c05::def(), c06::def(), c07::def(), c08::def(), c09::def(), c10::def(), c11::def(), c12::def(), c13::def(), c14::def(), c15::def(), c16::def(), c17::def(), c18::def()]
 }
